@@ -85,8 +85,10 @@ def one_store(rng, workdir: Path, rec, k):
     extras = [n for n in ('vx_simple', 'vx_species', 'vx_modes') if rng.random() < 0.6]
     if rng.random() < 0.3:
         extras.append('vx_optfirst')
-    if rng.random() < 0.25:
+    if rng.random() < 0.3:
         extras.append('vx_allopt')       # a set a trajectory may leave entirely unset
+        if rng.random() < 0.3:
+            extras = ['vx_allopt']
     if not extras and rng.random() < 0.8:
         extras = [rng.choice(['vx_species', 'vx_modes', 'vx_simple'])]
     shape = rng.choice(['prefix', 'gapped', 'per-field', 'full', 'single'])
@@ -128,7 +130,8 @@ def one_store(rng, workdir: Path, rec, k):
             t.add_fields(vf.ALL[n])
             # optional species fields may be unset in the first trajectory too; only if it
             # would carry no species at all do we keep them (a file needs a species list)
-            vf.fill(t, n, rng, plan=plan, keep_species_fields=(j == 0 and keep_first))
+            vf.fill(t, n, rng, plan=plan, keep_species_fields=(j == 0 and keep_first),
+                    unset_prob=1.0 if (n == 'vx_allopt' and rng.random() < 0.5) else 0.4)
         if j == 0:
             union0.update(t.species)
         return t
@@ -214,7 +217,10 @@ def one_store(rng, workdir: Path, rec, k):
                 assoc_paths = [d / 'a1.nc']
                 kw['associated_files'] = [(assoc_paths[0], list(extras))]
             elif layout == 'assoc2':
-                cut = rng.randint(1, len(extras) - 1)
+                if 'vx_allopt' in extras:          # the all-optional set in a file of its own
+                    extras = [x for x in extras if x != 'vx_allopt'] + ['vx_allopt']
+                cut = rng.randint(1, len(extras) - 1) if 'vx_allopt' not in extras \
+                    else len(extras) - 1
                 assoc_paths = [d / 'a1.nc', d / 'a2.nc']
                 kw['associated_files'] = [(assoc_paths[0], extras[:cut]),
                                           (assoc_paths[1], extras[cut:])]
